@@ -16,6 +16,23 @@ import (
 
 const verifRoot = "/verif"
 
+// repoRoot is the repository the checks read (always /repo for the registered commands;
+// VERIF_REPO lets the seeded-change regression run against a patched scratch copy) and
+// evidenceDir where evidence and replay files go (VERIF_EVIDENCE for the same purpose).
+func repoRoot() string {
+	if v := os.Getenv("VERIF_REPO"); v != "" {
+		return v
+	}
+	return "/repo"
+}
+
+func evidenceDir() string {
+	if v := os.Getenv("VERIF_EVIDENCE"); v != "" {
+		return v
+	}
+	return filepath.Join(verifRoot, "evidence")
+}
+
 // JobResult is what one executor process reports about one harness entry.
 type JobResult struct {
 	Pkg          string            `json:"pkg"`
@@ -31,6 +48,8 @@ type JobResult struct {
 	Unsat        int               `json:"unsat"`
 	Unknown      int               `json:"unknown"`
 	SolverErrs   int               `json:"solver_errors"`
+	Restarts     int               `json:"solver_restarts,omitempty"`
+	Retries      int               `json:"solver_retries,omitempty"`
 	PreHits      int               `json:"presolver_hits"`
 	SolverSecs   float64           `json:"solver_s"`
 	MaxQuerySec  float64           `json:"max_query_s"`
@@ -114,7 +133,7 @@ func cmdSelftest(args []string) int {
 
 func cmdRun(args []string) int {
 	fs := flag.NewFlagSet("run", flag.ExitOnError)
-	repo := fs.String("repo", "/repo", "repository root")
+	repo := fs.String("repo", repoRoot(), "repository root")
 	pkg := fs.String("pkg", "", "package directory relative to repo (e.g. ./reader)")
 	hdir := fs.String("harness", "", "harness directory (absolute, or relative to /verif/harness)")
 	entry := fs.String("entry", "", "comma separated harness function names")
@@ -254,6 +273,7 @@ func runEntry(ld *Loaded, name, hd, pkg string, unwind int, z3 string, seed, qto
 	r.WallSecs = time.Since(t1).Seconds()
 	r.Paths, r.PathEnds, r.Instrs, r.Forks = ex.Paths, ex.PathEnds, ex.Instrs, ex.Forks
 	r.Queries, r.Sat, r.Unsat, r.Unknown, r.SolverErrs, r.PreHits = sol.Queries, sol.Sat, sol.Unsat, sol.Unknown, sol.Errors, sol.PreHits
+	r.Restarts, r.Retries = sol.Restarts, sol.Retries
 	r.SolverSecs, r.MaxQuerySec = sol.Time.Seconds(), sol.MaxQ.Seconds()
 	r.MaxVisit, r.UnwindHit = ex.MaxVisit, ex.UnwindHit
 	r.Unsupported, r.Violations, r.Reached, r.Notes, r.Params = ex.Unsupp, ex.Violations, ex.Reached, ex.Notes, ex.params
